@@ -1,9 +1,11 @@
 package checks
 
 import (
+	"bytes"
 	"encoding/json"
 	"fmt"
 	"os"
+	"os/exec"
 	"path/filepath"
 	"sort"
 	"strings"
@@ -257,6 +259,18 @@ func c16(tier string, args []string) int {
 		{Name: "reader-on-a-writers-handle", Writers: [][]string{{"a1", "a2"}, {"b1"}}, Reader: []uint64{0, 0}, ReaderOnWriter0: true, Bound: b},
 		{Name: "short-lived-writer-next-to-long-lived", Writers: [][]string{{"a1", "a2"}, {"b1"}}, Short: []string{"s1"}, Bound: b},
 	}
+	// the history search (no scheduler involved) runs in a process of its own next to the schedule
+	// explorations: the cooperative scheduler is process-wide
+	exe, eerr := os.Executable()
+	if eerr != nil {
+		r.Infra("os.Executable: %v", eerr)
+	}
+	histCmd := exec.Command(exe, "c16-histories", tier)
+	var histOut bytes.Buffer
+	histCmd.Stdout, histCmd.Stderr = &histOut, os.Stderr
+	if err := histCmd.Start(); err != nil {
+		r.Infra("cannot start the history search: %v", err)
+	}
 	execs, distinct := 0, 0
 	for _, sc := range scenarios {
 		if r.TimeUp() {
@@ -301,8 +315,35 @@ func c16(tier string, args []string) int {
 	execs += pexecs
 	distinct += pdistinct
 	r.Set("schedules_of_os_processes", pexecs)
-	// ---- histories of one long-lived handle with ignore lists, against a reference model (c16hist.go)
-	hist := c16Histories(r, tier)
+	// ---- histories of one long-lived handle with ignore lists, against a reference model
+	// (c16hist.go); they ran in a process of their own meanwhile
+	hist := 0
+	{
+		err := histCmd.Wait()
+		var res c16HistResult
+		line := strings.TrimSpace(histOut.String())
+		if i := strings.LastIndex(line, "\n"); i >= 0 {
+			line = line[i+1:]
+		}
+		if jerr := json.Unmarshal([]byte(line), &res); jerr != nil {
+			r.Infra("the history search (child process) gave no result: %v %v %s", err, jerr, clip(histOut.String(), 300))
+		}
+		if res.Infra != "" {
+			r.Infra("history search: %s", res.Infra)
+		}
+		for _, v := range res.Violations {
+			r.Violation(v.Key, v.What, v.Replay)
+		}
+		for _, c := range res.Caps {
+			r.Cap(c)
+		}
+		for k, v := range res.Sets {
+			r.Set(k, v)
+		}
+		if n, ok := res.Sets["handle_histories"].(float64); ok {
+			hist = int(n)
+		}
+	}
 	// ---- sizes: every sequence of <= 3 messages over the size alphabet, single writer
 	seqs := c16Sizes(r, tier)
 	r.Set("evaluations", execs+seqs+hist)
